@@ -188,7 +188,8 @@ Record obs := {
   ob_go : nat }.               (* Go-side monitors: 0 fine, 1 address ranges overlap, 2 mutating the clone changed the
                                   original, 3 mutating the original changed the clone, 4 panic, 5 submit left the original changed,
                                   6 the clone holds a value outside the modelled domain,
-                                  7 the clone made under a cancelled / expired Context differs from the one made under a live one *)
+                                  7 the clone made under a cancelled / expired Context differs from the one made under a live one,
+                                  8 the clone depends on the order / repetition of the options *)
 
 Record case := {
   cs_orig : lobj;
